@@ -132,7 +132,7 @@ Lemma load_inr_inv : forall w i op,
   load w i = inr op ->
   exists cfg toks,
     load_config w i = inr cfg /\
-    op_db op = (if i_no_database i then [] else pick_string (i_f_db i) (i_e_db i) (ce_db cfg) default_db) /\
+    op_db op = (if i_no_database i then dev_null else pick_string (i_f_db i) (i_e_db i) (ce_db cfg) default_db) /\
     op_log op = pick_string (i_f_log i) (i_e_log i) (ce_log cfg) default_log /\
     op_fmt op = pick_string (i_f_fmt i) (i_e_fmt i) (ce_fmt cfg) default_fmt /\
     tokenize (op_fmt op) = Some toks /\
@@ -140,7 +140,7 @@ Lemma load_inr_inv : forall w i op,
     op_depth op = pick_depth (i_f_depth i) (i_e_depth i) (ce_depth cfg) /\
     match i_f_today i with
     | Some s => exists c, parse_date toks s = Some c /\ op_now op = time_of_civil c
-    | None => op_now op = or_default (ce_now cfg) (w_clock w)
+    | None => op_now op = time_of_civil (civ (or_default (ce_now cfg) (w_clock w)))
     end /\
     pick_period w (op_now op) toks (i_g_begin i) (i_l_begin i) = inr (op_begin op) /\
     pick_period w (op_now op) toks (i_g_end i) (i_l_end i) = inr (op_end op).
@@ -155,8 +155,8 @@ Proof.
     destruct (pick_period w (time_of_civil c) toks (i_g_end i) (i_l_end i)) as [e|et] eqn:Ee; [discriminate|].
     inversion H; subst op; clear H. cbn [op_db op_log op_fmt op_depth op_now op_begin op_end op_rc rc_date].
     repeat split; try reflexivity; try assumption. exists c. split; reflexivity.
-  - destruct (pick_period w (or_default (ce_now cfg) (w_clock w)) toks (i_g_begin i) (i_l_begin i)) as [e|bt] eqn:Eb; [discriminate|].
-    destruct (pick_period w (or_default (ce_now cfg) (w_clock w)) toks (i_g_end i) (i_l_end i)) as [e|et] eqn:Ee; [discriminate|].
+  - destruct (pick_period w (time_of_civil (civ (or_default (ce_now cfg) (w_clock w)))) toks (i_g_begin i) (i_l_begin i)) as [e|bt] eqn:Eb; [discriminate|].
+    destruct (pick_period w (time_of_civil (civ (or_default (ce_now cfg) (w_clock w)))) toks (i_g_end i) (i_l_end i)) as [e|et] eqn:Ee; [discriminate|].
     inversion H; subst op; clear H. cbn [op_db op_log op_fmt op_depth op_now op_begin op_end op_rc rc_date].
     repeat split; try reflexivity; assumption.
 Qed.
@@ -167,14 +167,14 @@ Section Precedence.
   Hypothesis Hcfg : load_config w i = inr cfg.
 
   Lemma load_inr_cfg :
-    op_db op = (if i_no_database i then [] else pick_string (i_f_db i) (i_e_db i) (ce_db cfg) default_db) /\
+    op_db op = (if i_no_database i then dev_null else pick_string (i_f_db i) (i_e_db i) (ce_db cfg) default_db) /\
     op_log op = pick_string (i_f_log i) (i_e_log i) (ce_log cfg) default_log /\
     op_fmt op = pick_string (i_f_fmt i) (i_e_fmt i) (ce_fmt cfg) default_fmt /\
     op_depth op = pick_depth (i_f_depth i) (i_e_depth i) (ce_depth cfg) /\
     exists toks, tokenize (op_fmt op) = Some toks /\ rc_date (op_rc op) = toks /\
     match i_f_today i with
     | Some s => exists c, parse_date toks s = Some c /\ op_now op = time_of_civil c
-    | None => op_now op = or_default (ce_now cfg) (w_clock w)
+    | None => op_now op = time_of_civil (civ (or_default (ce_now cfg) (w_clock w)))
     end.
   Proof.
     destruct (load_inr_inv w i op Hload) as (cfg' & toks & H0 & H1 & H2 & H3 & H4 & H5 & H6 & H7 & _).
@@ -182,8 +182,9 @@ Section Precedence.
     repeat split; try assumption. exists toks. repeat split; assumption.
   Qed.
 
-  (** --no-database: the recipe-book path is the empty name, whatever the other sources say *)
-  Theorem settings_precedence_no_database : i_no_database i = true -> op_db op = [].
+  (** --no-database: the recipe-book path is the null device (fix F24; it used to be the empty name),
+      whatever the other sources say *)
+  Theorem settings_precedence_no_database : i_no_database i = true -> op_db op = dev_null.
   Proof. intros Hn. destruct load_inr_cfg as (H & _). rewrite Hn in H. exact H. Qed.
 
   (** recipe-book path: flag, else HR_DATABASE, else the file's DbFileName when not empty, else "food.yaml" *)
@@ -208,13 +209,14 @@ Section Precedence.
   Proof. destruct load_inr_cfg as (_ & _ & _ & H & _). rewrite H. apply pick_depth_spec. Qed.
 
   (** current date: --today parsed in the EFFECTIVE layout (the one [op_fmt]
-      ended up with), at midnight UTC; else the file's Now; else the clock.
-      No environment variable. *)
+      ended up with), at midnight UTC; else the CALENDAR DAY of the file's Now (in
+      its own zone); else the calendar day of the clock -- at midnight UTC as well
+      (fix F25; it used to be the instant itself).  No environment variable. *)
   Theorem settings_precedence_now :
     exists toks, tokenize (op_fmt op) = Some toks /\
       match i_f_today i with
       | Some s => exists c, parse_date toks s = Some c /\ op_now op = time_of_civil c
-      | None => op_now op = or_default (first_some [ce_now cfg]) (w_clock w)
+      | None => op_now op = time_of_civil (civ (or_default (first_some [ce_now cfg]) (w_clock w)))
       end.
   Proof.
     destruct load_inr_cfg as (_ & _ & _ & _ & toks & Ht & _ & Hn). exists toks. split; [assumption|].
@@ -222,8 +224,10 @@ Section Precedence.
   Qed.
 
   (** a flag (or environment variable) given as the EMPTY string is still
-      "set" and wins over the configuration file and the default; for the
-      recipe book the resulting empty name means "no recipe book" *)
+      "set" and wins over the configuration file and the default; the resulting
+      empty name is a file that cannot be opened (fix F24: for the recipe book it
+      used to mean "no recipe book"; see [empty_book_name_fails] / [empty_log_name_fails]
+      in SettingsNoDb.v) *)
   Theorem empty_flag_still_wins :
     (i_no_database i = false -> i_f_db i = Some [] -> op_db op = []) /\
     (i_f_log i = Some [] -> op_log op = []) /\
@@ -257,7 +261,7 @@ End Precedence.
 (** the five equalities in one statement *)
 Theorem settings_precedence : forall w i op cfg,
   load w i = inr op -> load_config w i = inr cfg ->
-  op_db op = (if i_no_database i then []
+  op_db op = (if i_no_database i then dev_null
               else or_default (first_some [i_f_db i; i_e_db i; file_string (ce_db cfg)]) default_db) /\
   op_log op = or_default (first_some [i_f_log i; i_e_log i; file_string (ce_log cfg)]) default_log /\
   op_fmt op = or_default (first_some [i_f_fmt i; i_e_fmt i; file_string (ce_fmt cfg)]) default_fmt /\
@@ -265,7 +269,7 @@ Theorem settings_precedence : forall w i op cfg,
   exists toks, tokenize (op_fmt op) = Some toks /\
     match i_f_today i with
     | Some s => exists c, parse_date toks s = Some c /\ op_now op = time_of_civil c
-    | None => op_now op = or_default (first_some [ce_now cfg]) (w_clock w)
+    | None => op_now op = time_of_civil (civ (or_default (first_some [ce_now cfg]) (w_clock w)))
     end.
 Proof.
   intros w i op cfg Hl Hc. repeat split.
@@ -287,6 +291,53 @@ Theorem today_unparsable_is_error : forall w i cfg toks s,
   load w i = inl EBadDate.
 Proof.
   intros w i cfg toks s Hc Ht Hs Hp. unfold load. rewrite Hc, pick_string_spec, Ht, Hs, Hp. reflexivity.
+Qed.
+
+(** * fix F25: without --today the current date is a calendar day, exactly as with --today *)
+
+(** the invocation with --today [s] *)
+Definition with_today (i : invocation) (s : bytes) : invocation :=
+  {| i_f_db := i_f_db i; i_e_db := i_e_db i; i_f_log := i_f_log i; i_e_log := i_e_log i;
+     i_f_fmt := i_f_fmt i; i_e_fmt := i_e_fmt i; i_f_depth := i_f_depth i; i_e_depth := i_e_depth i;
+     i_f_today := Some s; i_f_config := i_f_config i; i_e_config := i_e_config i;
+     i_no_database := i_no_database i;
+     i_g_begin := i_g_begin i; i_g_end := i_g_end i; i_l_begin := i_l_begin i; i_l_end := i_l_end i;
+     i_g_no_color := i_g_no_color i; i_l_no_color := i_l_no_color i; i_single_food := i_single_food i;
+     i_single_element := i_single_element i; i_group_food := i_group_food i; i_csv := i_csv i;
+     i_no_totals := i_no_totals i; i_totals_only := i_totals_only i; i_shorten := i_shorten i; i_old := i_old i;
+     i_template := i_template i; i_collapse := i_collapse i; i_collapse_last := i_collapse_last i;
+     i_desc := i_desc i; i_silent := i_silent i; i_cmd := i_cmd i |}.
+
+(** the loaded current date is the midnight-UTC time of a civil date in all three cases *)
+Theorem loaded_now_is_a_day : forall w i op, load w i = inr op -> op_now op = time_of_civil (civ (op_now op)).
+Proof.
+  intros w i op H. destruct (load_inr_inv w i op H) as (cfg & toks & _ & _ & _ & _ & _ & _ & _ & Hn & _).
+  destruct (i_f_today i) as [s|].
+  - destruct Hn as (c & _ & ->). destruct c as [[y m] d]. reflexivity.
+  - rewrite Hn. destruct (civ (or_default (ce_now cfg) (w_clock w))) as [[y m] d]. reflexivity.
+Qed.
+
+(** a world whose clock (or whose configured Now, which wins) shows the civil date D loads the same
+    settings as the same invocation with --today D -- for every way [s] of writing D in the effective
+    layout.  So the keywords today / yesterday / last7 / last30 and every period computed from the
+    current date behave for the clock day exactly as for --today of that day. *)
+Theorem clock_day_as_today : forall w i cfg toks s,
+  load_config w i = inr cfg ->
+  tokenize (or_default (first_some [i_f_fmt i; i_e_fmt i; file_string (ce_fmt cfg)]) default_fmt) = Some toks ->
+  i_f_today i = None ->
+  parse_date toks s = Some (civ (or_default (first_some [ce_now cfg]) (w_clock w))) ->
+  load w i = load w (with_today i s).
+Proof.
+  intros w i cfg toks s Hc Ht Hn Hp.
+  assert (Hc' : load_config w (with_today i s) = inr cfg) by exact Hc.
+  assert (E : or_default (first_some [ce_now cfg]) (w_clock w) = or_default (ce_now cfg) (w_clock w))
+    by (cbn; destruct (ce_now cfg); reflexivity).
+  rewrite E in Hp.
+  unfold load. rewrite Hc, Hc'. cbn [with_today i_f_db i_e_db i_f_log i_e_log i_f_fmt i_e_fmt i_f_depth i_e_depth
+    i_f_today i_no_database i_g_begin i_g_end i_l_begin i_l_end i_g_no_color i_l_no_color i_single_food
+    i_single_element i_group_food i_csv i_no_totals i_totals_only i_shorten i_old i_template i_collapse
+    i_collapse_last].
+  rewrite pick_string_spec, Ht, Hn, Hp. reflexivity.
 Qed.
 
 (** * Examples (all of them hold of the current and of the repaired model) *)
@@ -368,9 +419,24 @@ Module SettingsExample.
     = inl EConfigMissing.
   Proof. vm_compute. reflexivity. Qed.
 
-  (** -d "" is "set": it overrides the file and the default, and the empty name means no recipe book *)
+  (** -d "" is "set": it overrides the file and the default (the empty name is a file that cannot be opened) *)
   Example ex_empty_flag :
     exists op, load w0 (mk_inv (Some []) None None None None (Some (b "2006/01/02")) None None None None None false CReg)
                = inr op /\ op_db op = [].
   Proof. eexists. split; [vm_compute; reflexivity|]. reflexivity. Qed.
+
+  (** fix F25: a clock late in the evening of 2026/10/01 in a zone two hours east of UTC (the instant is already
+      past 22:00 UTC): the current date is the calendar day of the clock, as with --today 2026/10/01 *)
+  Definition w_evening : world :=
+    {| w_fs := []; w_default_config := b "/home/u/.hranoprovod/config"; w_tz := 7200;
+       w_clock := {| inst := inst (time_of_civil (2026, 10, 1)%Z) + 79200000000000; off := 7200; civ := (2026, 10, 1)%Z |};
+       w_or := id_oracles; w_sink := None; w_read_fault := [] |}.
+  Example ex_clock_day_as_today :
+    load w_evening i_bare = load w_evening (with_today i_bare (b "2026/10/01"))
+    /\ exists op, load w_evening i_bare = inr op /\ op_now op = time_of_civil (2026, 10, 1)%Z.
+  Proof.
+    split.
+    - eapply clock_day_as_today; [vm_compute; reflexivity|vm_compute; reflexivity|reflexivity|vm_compute; reflexivity].
+    - eexists. split; [vm_compute; reflexivity|]. vm_compute. reflexivity.
+  Qed.
 End SettingsExample.
